@@ -101,7 +101,10 @@ def build(bdir):
 
 
 def enumerate_real(exe):
-    rc, out = run([exe, "enum"], timeout=60)
+    rc, out = run([exe, "enum"], timeout=120)
+    if rc < 0 or rc in (134, 139):
+        # the device manager itself died in this staging: the supervised run below turns that into a Crash event
+        return {"init": -1, "count": 0, "devs": [], "crashed": rc}
     try:
         return json.loads(out.strip().splitlines()[-1])
     except Exception:
@@ -553,6 +556,8 @@ def judge(chk, prop, config, runs, workdir, cfg, case_lines, meta, classes, conf
         evs = read_trace(tr)
         for e in evs:
             if e.get("e") == "Slow":
+                if e.get("init"):
+                    raise Broken("staging '%s': the device manager did not initialise / shut down within the watchdog (%s)" % (config, tr))
                 slow.append(e.get("id"))
         for rule, line in v["bad"]:
             e = evs[line - 1]
@@ -667,6 +672,17 @@ def main(prop, tier):
             chk.notes.append("staging '%s': count=%s but %d entries enumerated (some failed)" % (name, t["count"], len(t["devs"])))
     main_tab = tables["with"]
     devs = main_tab["devs"]
+    dead = [name for name, t in tables.items() if "crashed" in t]
+    if "with" in dead:
+        # nothing can be enumerated; record the crash through the supervised harness and the Obs spec, then stop
+        ocfg0 = obs_cfg(os.path.join(bdir, "DeviceSelectObs.cfg"), choose_classes([], 2))
+        cs0 = Cases()
+        cs0.add("C", 0, family="count")
+        runs0 = run_harness(stage["with"], cs0.lines, bdir, "with", 5000, 1)
+        judge(chk, prop, "with", runs0, bdir, ocfg0, cs0.lines, cs0.meta, choose_classes([], 2), stage["with"])
+        if not chk.violations and not chk.known_hits:
+            raise Broken("harness `enum` died in the 'with' staging (rc=%s) but the supervised run did not" % main_tab["crashed"])
+        return chk.finish()
     if main_tab["init"] != 0 or not devs:
         raise Broken("the real common driver did not enumerate any device (init=%s count=%s): nothing to check" % (main_tab["init"], main_tab["count"]))
     if not any(d["kind"] == KIND_CAMERA for d in devs) or not any(d["kind"] == KIND_STORAGE for d in devs):
@@ -812,6 +828,8 @@ def main(prop, tier):
     chk.set("slow_calls", {"count": sum(s["harness"]["slow"] for s in chk.cov["configurations"].values()), "watchdog_ms": watchdog,
                            "examples": slow_all[:8], "note": "SLOW: the call exceeded the watchdog; the property bounds neither time nor memory, never a violation"})
     chk.set("exhaustive", True)
+    chk.set("level_note", "model_checking for the modelled regex grammar (exact expectations, every AST of the bound); exploration for "
+                          "arbitrary / malformed byte strings (weak rule)")
     chk.set("checker_cmd", "tlc DeviceSelect (cfg generated from the real enumeration) ; tlc DeviceSelectObs with TRACE=<impl trace>")
     # vacuity guards on the code -> spec side
     need = {"exact": 1000, "exact_some": 100, "weak": 500, "unknown_kind": 20, "get_in": len(devs), "get_out": 5, "open": len(devs), "count": 1, "padded": 20}
